@@ -644,6 +644,30 @@ pub fn run_isolated_file(path: &Path, timeout: Duration) -> Iso {
 
 // ------------------------------------------------------------------ fresh-process reference
 
+/// Environment variables a reference process may see changed, removed or emptied.
+const REF_ENV: &[(&str, &str)] = &[
+    ("NO_COLOR", "1"),
+    ("CLICOLOR", "0"),
+    ("CLICOLOR_FORCE", "1"),
+    ("TERM", "dumb"),
+    ("COLORTERM", "truecolor"),
+    ("COLUMNS", "7"),
+    ("LINES", "3"),
+    ("LANG", "tr_TR.UTF-8"),
+    ("LC_ALL", "ja_JP.eucJP"),
+    ("LC_CTYPE", "C"),
+    ("TZ", "Pacific/Kiritimati"),
+    ("HOME", "/nonexistent"),
+    ("TMPDIR", "/nonexistent"),
+    ("RUST_LOG", "trace"),
+    ("RUST_MIN_STACK", "65536"),
+    ("HTML2TEXT_WIDTH", "3"),
+    ("WIDTH", "3"),
+    ("USER", "nobody"),
+    ("HOSTNAME", "elsewhere"),
+    ("SHELL", "/bin/false"),
+];
+
 #[derive(Serialize, Deserialize)]
 struct RefRequest {
     scenario: Scenario,
@@ -684,21 +708,40 @@ pub fn fresh_references(
     scen: &Scenario,
     keys: &[(usize, usize, usize)],
 ) -> Option<Vec<(crate::exec::Outcome, crate::exec::Outcome)>> {
-    let mut child = Command::new(self_exe())
-        .arg("refserve")
-        .stdin(Stdio::piped())
-        .stdout(Stdio::piped())
-        .stderr(Stdio::null())
-        .spawn()
-        .ok()?;
     let req = RefRequest {
         scenario: scen.clone(),
         keys: keys.to_vec(),
     };
+    let mut text = serde_json::to_string(&req).ok()?;
+    text.push('\n');
+    // The reference process also lives in a *different environment*: the
+    // rendering is a function of bytes, configuration and width, so terminal,
+    // locale, colour and size variables, the time zone and the working
+    // directory must not matter.  Which ones are changed is a function of
+    // the request (so of the run), not of chance.
+    let h = crate::prng::fnv(text.as_bytes());
+    let mut cmd = Command::new(self_exe());
+    cmd.arg("refserve").stdin(Stdio::piped()).stdout(Stdio::piped()).stderr(Stdio::null());
+    for (i, (k, v)) in REF_ENV.iter().enumerate() {
+        match (h >> (2 * i)) & 3 {
+            0 => {
+                cmd.env(k, v);
+            }
+            1 => {
+                cmd.env_remove(k);
+            }
+            2 => {
+                cmd.env(k, "");
+            }
+            _ => {}
+        }
+    }
+    if h >> 62 & 1 == 1 {
+        cmd.current_dir("/");
+    }
+    let mut child = cmd.spawn().ok()?;
     {
         let mut stdin = child.stdin.take()?;
-        let mut text = serde_json::to_string(&req).ok()?;
-        text.push('\n');
         stdin.write_all(text.as_bytes()).ok()?;
     }
     let mut s = String::new();
